@@ -41,6 +41,7 @@ const B: &[&str] = &[
     "dt_diff_leap",
     // offsets
     "offset_keeps_leap", "offset_day_carry", "offset_datetime_time_leap",
+    "deprecated_panicking_twins",
 ];
 const FLOOR: &[&str] = B;
 
@@ -328,6 +329,7 @@ pub fn run(ctx: &Ctx) -> Outcome {
     differences(ctx, &rep);
     datetimes(ctx, &rep);
     offsets(ctx, &rep);
+    crate::props::twins::c07(ctx, &rep, B.iter().position(|b| *b == "deprecated_panicking_twins").unwrap());
     rep.finish(
         ctx,
         "constructors: every (h 0..=25, m 0..=61, s 0..=61) x 14 nanosecond boundary values for the three from_hms_* forms, every second count 0..=86401 x those values, plus random/extreme u32 tuples; arithmetic: boundary times (24 catalogue seconds + random seconds x 16 fractions incl. 8 leap fractions) x a duration catalogue built per time from the specification (0, +-1 ns, exactly reaching the start/end of the leap second / the next second / midnight and +-1 ns around them, +-1/59/60/61/86399/86400/86401/172800 s with and without fractions, MIN, MAX, random), random (time, duration) pairs, in thorough all 86400 seconds x 8 fractions x 200 durations; differences: all ordered pairs of a set of boundary+random times; date-times with leap operands incl. both range ends; offset shifts. A case is non-trivial if an operand is a leap-second representation, or the sum crosses midnight, or the duration is within 1 ns of TimeDelta::MIN/MAX, or (constructors) the tuple is rejected or accepted as a leap second; distinct = distinct (operation, operand(s), duration) tuples (hashed bitmap, collisions under-count)",
